@@ -96,7 +96,8 @@ func (c cfg) count(r *vproto.Rng, hi int) int {
 	if c.emptyMember && r.Intn(4) == 0 {
 		return 0
 	}
-	if c.big && r.Intn(40) == 0 {
+	// large counts only at the vertex level (hi == 6 is used for vertices and Multi* members)
+	if c.big && hi == 6 && r.Intn(60) == 0 {
 		return []int{17, 64, 300}[r.Intn(3)]
 	}
 	switch r.Intn(6) {
@@ -169,7 +170,7 @@ func gen(seed uint64, tier string) {
 	r := vproto.NewRng(seed)
 	n := 9000
 	if tier == "thorough" {
-		n = 250000
+		n = 150000
 	}
 	emit := func(g geom.Geom) { fmt.Fprintf(out, "enc %s\n", vproto.GeomToks(g)) }
 	P := func(x, y float64) geom.Point { return geom.Point{X: x, Y: y} }
@@ -201,7 +202,7 @@ func gen(seed uint64, tier string) {
 		emit(P(x, -x))
 		emit(geom.LineString{P(x, 1), P(2, x)})
 	}
-	guarded := cfg{big: tier == "thorough"}
+	guarded := cfg{}
 	for i := 0; i < n; i++ {
 		switch {
 		case i%20 == 17:
@@ -268,7 +269,11 @@ func gen(seed uint64, tier string) {
 	}
 	// a few large ones
 	big := cfg{big: true}
-	for i := 0; i < 20; i++ {
+	nbig := 20
+	if tier == "thorough" {
+		nbig = 400
+	}
+	for i := 0; i < nbig; i++ {
 		emit(big.geom(r, 1+r.Intn(4)))
 	}
 }
